@@ -211,8 +211,90 @@ fn run_c11(ctx: &mut Ctx) -> Verdict {
     Verdict::Pass
 }
 
+/// C17, differential form: some queries fail every time (on every connection). Each expression of a
+/// sequence is evaluated on one shared evaluator and, afterwards, on a fresh one; the two results
+/// must be the same - also for evaluations that met failing queries themselves.
+fn run_c17_persistent(ctx: &mut Ctx) -> Verdict {
+    let cfg = if ctx.tier == Tier::Thorough { GenCfg { max_as: 30, max_sets: 8, max_routes_per_as: 5 } } else { GenCfg { max_as: 8, max_sets: 5, max_routes_per_as: 3 } };
+    let db = gen_db(ctx, &cfg);
+    let n = 2 + ctx.pick(if ctx.tier == Tier::Thorough { 11 } else { 7 });
+    let exprs: Vec<String> = (0..n).map(|_| gen_query_expr(ctx, &db)).collect();
+    // candidate queries: routes of every AS, members of every set
+    let mut keys: Vec<String> = Vec::new();
+    for asn in db.routes.keys() {
+        keys.push(format!("!g{asn}"));
+        keys.push(format!("!6{asn}"));
+    }
+    for set in db.as_sets.keys().chain(db.route_sets.keys()) {
+        keys.push(format!("!i{set},1"));
+    }
+    let mut broken = std::collections::BTreeMap::new();
+    if !keys.is_empty() {
+        for _ in 0..(1 + ctx.pick(6)) {
+            let k = keys[ctx.pick(keys.len())].clone();
+            let f = *ctx.tape.choose(&[Fault::Other, Fault::NotUnique, Fault::NotFound]);
+            broken.insert(k, f);
+        }
+    }
+    ev!(ctx, "db {}", describe(&db).chars().take(2000).collect::<String>());
+    ev!(ctx, "exprs {exprs:?} queries that always fail {broken:?}");
+    let irr = setup_irr(ctx, db);
+    irr.lock().unwrap().broken_queries = broken;
+    let mut shared_ev = match RpslEvaluator::new("irrd.sim", 43) {
+        Ok(e) => e,
+        Err(e) => {
+            uninstall();
+            return Verdict::violation("connect-failed", format!("{e}"));
+        }
+    };
+    let shared: Vec<Result<Vec<String>, String>> = exprs.iter().map(|e| lib_eval(&mut shared_ev, e)).collect();
+    drop(shared_ev);
+    let fired_shared = irr.lock().unwrap().faults_fired.len();
+    let fresh: Vec<Result<Vec<String>, String>> = exprs
+        .iter()
+        .map(|e| match RpslEvaluator::new("irrd.sim", 43) {
+            Ok(mut f) => lib_eval(&mut f, e),
+            Err(e) => Err(format!("connect: {e}")),
+        })
+        .collect();
+    uninstall();
+    ctx.count_n("fault.irr_persistent_error_response", fired_shared as u64);
+    ctx.nontrivial = fired_shared > 0;
+    let mut errors_so_far = 0;
+    for (i, (s, f)) in shared.iter().zip(&fresh).enumerate() {
+        ev!(ctx, "eval #{i} {}: shared {} / fresh {}", exprs[i], match s { Ok(g) => format!("Ok({} ranges)", g.len()), Err(_) => "Err".into() }, match f { Ok(g) => format!("Ok({} ranges)", g.len()), Err(_) => "Err".into() });
+        let same = match (s, f) {
+            (Ok(a), Ok(b)) => a == b,
+            (Err(_), Err(_)) => true,
+            _ => false,
+        };
+        if !same {
+            return Verdict::violation(
+                "history-dependent-result/with-failing-queries",
+                format!(
+                    "evaluation #{i} of {} ({errors_so_far} earlier evaluations on the connection had failed): on the shared evaluator {}, on a fresh one {}; evaluated before: {:?}",
+                    exprs[i],
+                    match s { Ok(g) => format!("{} ranges {:?}", g.len(), g.iter().take(4).collect::<Vec<_>>()), Err(e) => format!("error ({e})") },
+                    match f { Ok(g) => format!("{} ranges {:?}", g.len(), g.iter().take(4).collect::<Vec<_>>()), Err(e) => format!("error ({e})") },
+                    &exprs[..i],
+                ),
+            );
+        }
+        if s.is_err() {
+            errors_so_far += 1;
+        }
+    }
+    if errors_so_far > 0 {
+        ctx.count("probe.sequence_with_failed_evaluations");
+    }
+    Verdict::Pass
+}
+
 fn run_c17(ctx: &mut Ctx) -> Verdict {
     crate::ssim::quiet_panics();
+    if ctx.pick(3) == 0 {
+        return run_c17_persistent(ctx);
+    }
     let cfg = if ctx.tier == Tier::Thorough { GenCfg { max_as: 30, max_sets: 8, max_routes_per_as: 5 } } else { GenCfg { max_as: 8, max_sets: 5, max_routes_per_as: 3 } };
     let db = gen_db(ctx, &cfg);
     let n = 2 + ctx.pick(if ctx.tier == Tier::Thorough { 9 } else { 5 });
@@ -340,7 +422,7 @@ pub static C17: PropSpec = PropSpec {
     runs: |t| if t == Tier::Thorough { 3_000_000 } else { 25_000 },
     enumerated: |_| 0,
     run: run_c17,
-    rule: "2-10 expressions evaluated in sequence on one evaluator (one pipelined connection); 0-3 IRR error responses (key not found, not unique, other) injected at seeded query ordinals; filter-set responses optionally carry two objects (the resolver stops at the first); seeded read segmentation. Oracle: every evaluation whose own queries were not faulted equals the reference (= fresh-connection result), in particular those that follow a faulted one. Non-trivial = at least a second evaluation was checked; distinct = distinct event-log hash",
+    rule: "2-10 expressions evaluated in sequence on one evaluator (one pipelined connection); 0-3 IRR error responses (key not found, not unique, other) injected at seeded query ordinals; filter-set responses optionally carry two objects (the resolver stops at the first); seeded read segmentation. Oracle: every evaluation whose own queries were not faulted equals the reference (= fresh-connection result), in particular those that follow a faulted one. One run in three uses the differential form instead: 1-6 queries (routes of an AS, members of a set) fail every time on every connection, 2-8 (thorough: 2-12) expressions are evaluated on one evaluator and then each on a fresh one; the two results must be the same, also for evaluations that met failing queries themselves. Non-trivial = at least a second evaluation was checked; distinct = distinct event-log hash",
     components: COMPONENTS,
     assumptions: &["an evaluation one of whose own queries was answered with an injected error is not compared (bgpfu-lib sinks per-item errors, so it may succeed with data missing)"],
     watchdog_s: 60,
